@@ -160,6 +160,43 @@ mut("C04", "error-folds-to-false", ("internal/eval/fold.go", '''		if err == nil 
 			return ast.NodeValue{Value: types.False}
 		}'''))
 
+# ---- C06
+mut("C06", "and-false-keeps-right", ("internal/eval/partial.go", '''	case isFalse(left):
+		return ast.NodeValue{Value: types.False}, nil
+	case isTrue(left):
+		return tryPartialBinary(env,
+			ast.BinaryNode{Left: ast.NodeValue{Value: types.True}, Right: v.Right},
+			newAndEval,''', '''	case isFalse(left):
+		return partial(env, v.Right)
+	case isTrue(left):
+		return tryPartialBinary(env,
+			ast.BinaryNode{Left: ast.NodeValue{Value: types.True}, Right: v.Right},
+			newAndEval,'''))
+mut("C06", "scope-variable-true", ("internal/eval/partial.go", '''	if IsVariable(ent) {
+		return false, false
+	} else if IsIgnore(ent) {''', '''	if IsVariable(ent) {
+		return true, true
+	} else if IsIgnore(ent) {'''))
+mut("C06", "nonbool-condition-dropped", ("internal/eval/partial.go", '''			err := fmt.Errorf("%w: condition expected bool", ErrType)
+			p2.Conditions = append(p2.Conditions, ast.ConditionType{Condition: c.Condition, Body: extError(err)})
+			return &p2, true''', '''			continue'''))
+mut("C06", "nested-unknown-compared", ("internal/eval/partial.go", '''			if containsVariable(values[0]) || containsVariable(values[1]) {''', '''			if IsVariable(values[0]) || IsVariable(values[1]) {'''))
+mut("C06", "residual-frozen-operands", ("internal/eval/partial.go", "return mkNode(orig), errVariable", "_ = orig\n\t\t\treturn mkNode(nodes), errVariable"))
+mut("C06", "ignore-in-unless-kept-false", ("internal/eval/partial.go", '''			if types.Effect(p.Effect) == types.Permit {
+				continue
+			}
+			return nil, false''', '''			if types.Effect(p.Effect) == types.Permit && bool(c.Condition) {
+				continue
+			}
+			return nil, false'''))
+mut("C06", "or-error-right-dropped", ("internal/eval/partial.go", '''	} else if rightErr != nil && !errors.Is(rightErr, errVariable) {
+		right = extError(rightErr)
+	}
+	return ast.NodeTypeOr{''', '''	} else if rightErr != nil && !errors.Is(rightErr, errVariable) {
+		return left, nil
+	}
+	return ast.NodeTypeOr{'''))
+
 # ---- C20
 mut("C20", "unmarshal-merges", ("policy_set.go", """	*p = PolicySet{
 		policies: make(PolicyMap, len(jsonPolicySet.StaticPolicies)),
